@@ -242,6 +242,7 @@ DOC_SHAPES = ["none", "str", "list", "dict-str", "dict-list", "dict-no-desc", "d
 def rule_spec(g, rr):
     """(spec, expected normalised doc) for a rule recipe"""
     r = g.r
+    rr["cast"] = rr["cast"][:1]        # a spec names one cast per source type (and only types the library has a name for)
     path = []
     for p in rr["parts"]:
         sp = part_spec(r, p)
@@ -374,8 +375,10 @@ def to_yaml(struct):
 
 
 def generate(rng, n, tier):
+    from props import corners
+    _corner = corners.from_str_cases()
     g = Gen(rng, pct_strings=False, max_depth=2)
-    cases = []
+    cases = list(_corner)
     while len(cases) < n:
         x = rng.random()
         c = None
